@@ -5,6 +5,8 @@
 #![allow(static_mut_refs)]
 
 use crate::child::Src;
+#[allow(unused_imports)]
+use futures_buffered::verif as vv;
 use crate::fub::{self, Pre};
 use crate::gh::{self, g, MAXS};
 use crate::nd;
@@ -274,6 +276,26 @@ pub fn step_poll_unbounded(c: &MUCfg) {
             vassert!(gh.seq[id] == seq0[id], "C11:an item was pulled and dropped");
         }
         id += 1;
+    }
+    // ---- C08: live sources did not move (group removal / rotation moves handles only)
+    {
+        let mut j = 0;
+        while j < 2 {
+            if j < n2 {
+                let capj = m.verif_group(j).capacity();
+                let mut i = 0;
+                while i < c.caps[1] {
+                    if i < capj {
+                        if let Some(ch) = v::fub_peek(m.verif_group(j), i) {
+                            let cid = ch.id as usize % gh::NCH;
+                            vassert!(gh.addr[cid] == 0 || gh.addr[cid] == ch as *const Src as usize, "C08:held source moved");
+                        }
+                    }
+                    i += 1;
+                }
+            }
+            j += 1;
+        }
     }
     // ---- C13 ranking
     if gh.polls_in_call[idv] == 0 {
